@@ -53,3 +53,64 @@ func checkHeap(w *World) *Mismatch {
 	}
 	return nil
 }
+
+// checkRefs evaluates the reference-count accounting of the version
+// protocol (Proto.v refs_accounting) at a quiescent point: every live
+// version record has refs = (number of open handles on it) + (number of
+// live versions chained to it); and every live superseded version is
+// chained to a successor (superseded_chained).
+func checkRefs(w *World) *Mismatch {
+	type vinfo struct {
+		root    gkvlite.VerifRoot
+		handles int
+		chained int
+		where   string
+	}
+	vs := map[uintptr]*vinfo{}
+	var add func(r gkvlite.VerifRoot, handle bool, where string)
+	add = func(r gkvlite.VerifRoot, handle bool, where string) {
+		if r.Nil {
+			return
+		}
+		v, ok := vs[r.Addr]
+		if !ok {
+			v = &vinfo{root: r, where: where}
+			vs[r.Addr] = v
+			if r.Chain != nil {
+				add(*r.Chain, false, where+" (via chain)")
+				vs[r.Chain.Addr].chained++
+			}
+		}
+		if handle {
+			v.handles++
+		}
+	}
+	for hi, h := range w.H {
+		if h.Closed {
+			continue
+		}
+		for _, name := range h.Store.GetCollectionNames() {
+			c := h.Store.GetCollection(name)
+			if c != nil {
+				add(gkvlite.VerifDump(c), true, fmt.Sprintf("handle %d collection %q", hi, name))
+			}
+		}
+	}
+	freeRoots := map[uintptr]bool{}
+	for _, a := range gkvlite.VerifFreeRootNodeLocs() {
+		freeRoots[a] = true
+	}
+	for a, v := range vs {
+		if freeRoots[a] {
+			return &Mismatch{Kind: "freed-version-reachable", Expected: "no version record reachable from an open handle is on the free list", Observed: fmt.Sprintf("%s: version %#x", v.where, a)}
+		}
+		if int(v.root.Refs) != v.handles+v.chained {
+			return &Mismatch{Kind: "refs-accounting", Expected: fmt.Sprintf("refs = %d open handle(s) + %d chained predecessor(s)", v.handles, v.chained),
+				Observed: fmt.Sprintf("%s: version %#x has refs=%d", v.where, a, v.root.Refs)}
+		}
+		if v.root.Superseded && v.root.ChainAddr == 0 {
+			return &Mismatch{Kind: "superseded-not-chained", Expected: "a live superseded version holds a reference on its successor", Observed: fmt.Sprintf("%s: version %#x", v.where, a)}
+		}
+	}
+	return nil
+}
